@@ -652,3 +652,37 @@ def run_invariances(ctx: Ctx) -> None:
                 return False, f"{name}: an intensity map 3 x + b applied to the source of item 1 only changes the scores (items are not scored independently)"
             return True, ""
         _guard(ctx, "T16.invariance", name + ":batch", f, f"loss={name} batch of 2", thb)
+
+
+def run_mi_symmetry(ctx: Ctx) -> None:
+    """Mutual information is symmetric in its two images (relabelling-free symmetry), including the data-derived histogram range."""
+    prog = ctx.prog
+    L = "deepali.losses.functional"
+    ctx.rule("T16.mi-symmetry", "mi_loss(a, b) = mi_loss(b, a) and nmi_loss(a, b) = nmi_loss(b, a) for concrete rational image pairs whose "
+                                "intensity ranges differ (so that the default histogram range has to come from both images), 2 and 3 bins, "
+                                "batches of 1 and 2, with and without a mask and with an explicit range — as identities between expressions in "
+                                "exp / log atoms (the Parzen windows are evaluated symbolically, not numerically)")
+    pairs = [([[0, 1, Fraction(1, 2), Fraction(1, 4)]], [[0, 3, 1, 2]]),
+             ([[2, 5, 3, 2]], [[Fraction(-1), Fraction(1, 2), 0, 1]]),
+             ([[0, 1, Fraction(1, 2), 1], [1, 0, 0, Fraction(1, 2)]], [[0, 3, 1, 2], [4, 1, 0, 2]])]
+    for name in ("mi_loss", "nmi_loss"):
+        f = prog.func(L, name)
+        ctx.fn(f)
+        for k, (a_, b_) in enumerate(pairs):
+            for bins in (2, 3):
+                def th(f=f, a_=a_, b_=b_, bins=bins, name=name):
+                    reset_relations()
+                    fresh_facts()
+                    it = make_interp(ctx)
+                    a = STensor.from_nested([[row] for row in a_]).type(symt.FLOAT)
+                    b = STensor.from_nested([[row] for row in b_]).type(symt.FLOAT)
+                    variants = [("default range", {}), ("explicit range", {"vmin": -1, "vmax": 5})]
+                    m = STensor.from_nested([[[1, 1, 0, 1]]]).type(symt.FLOAT)
+                    variants.append(("mask", {"mask": m}))
+                    for what, kw in variants:
+                        r1 = it.call(f, a.clone(), b.clone(), num_bins=bins, **kw)
+                        r2 = it.call(f, b.clone(), a.clone(), num_bins=bins, **kw)
+                        if not teq(r1, r2):
+                            return False, f"{name}(a, b) != {name}(b, a) ({what}, num_bins={bins}; ranges of a and b differ)"
+                    return True, ""
+                _guard(ctx, "T16.mi-symmetry", f"{name}:pair{k}:bins={bins}", f, f"loss={name} image pair {k} num_bins={bins}", th)
